@@ -196,6 +196,39 @@ def rsa_pkcs1_sig_verify(n, e, mhash, sig):
     return em == b'\x00\x01' + b'\xff' * (k - len(t) - 3) + b'\x00' + t
 
 
+def _basic_unpad(em):
+    """relic's BASIC padding: 00 | 00.. | FF | D."""
+    if em[0] != 0:
+        return None
+    i = 1
+    while i < len(em) and em[i] == 0:
+        i += 1
+    if i >= len(em) or em[i] != 0xFF:
+        return None
+    return em[i + 1:]
+
+
+def rsa_basic_sig_verify(n, e, mhash, sig):
+    k = (n.bit_length() + 7) // 8
+    if len(sig) != k:
+        return False
+    s = int.from_bytes(sig, 'big')
+    if s >= n:
+        return False
+    d = _basic_unpad(pow(s, e, n).to_bytes(k, 'big'))
+    return d is not None and d == mhash
+
+
+def rsa_basic_decrypt(n, d, ct):
+    k = (n.bit_length() + 7) // 8
+    if len(ct) != k:
+        return None
+    c = int.from_bytes(ct, 'big')
+    if c >= n:
+        return None
+    return _basic_unpad(pow(c, d, n).to_bytes(k, 'big'))
+
+
 def rsa_oaep_decrypt(n, d, ct, label=b''):
     """RSAES-OAEP-DECRYPT (SHA-256, MGF1-SHA-256).  Returns the message or None (decryption error)."""
     k = (n.bit_length() + 7) // 8
